@@ -4,9 +4,15 @@
 //! See [`crate::literal::Literal`] for examples on how to (de-)serialize to/from Garble literals
 //! using `serde`.
 
+#[cfg(not(feature = "verif_hooks"))]
 use std::{
     collections::{HashMap, HashSet},
     fmt::Display,
+};
+#[cfg(feature = "verif_hooks")]
+use {
+    crate::verif_hooks::{HashMap, HashSet},
+    std::fmt::Display,
 };
 
 #[cfg(feature = "json_schema")]
